@@ -17,6 +17,7 @@
 package main
 
 import (
+	"bufio"
 	"fmt"
 	"math/rand"
 	"os"
@@ -166,6 +167,7 @@ type result struct {
 	V *aval.V // value (abstract) when K == v and it is an abstract value
 	C string  // exception class
 	M string  // message (informational only)
+	I bool    // value is an integer value (SuInt / SuInt64: the integer fast paths of core/ops.go apply)
 }
 
 type resJSON struct{ r result }
@@ -222,7 +224,8 @@ func call(fn Value, args []Value) (res result) {
 		return result{K: "v", C: "nil"}
 	}
 	if av, ok := aval.Of(v); ok {
-		return result{K: "v", V: av}
+		_, isInt := SuIntToInt(v)
+		return result{K: "v", V: av, I: isInt}
 	}
 	return result{K: "v", C: "opaque:" + v.Type().String()}
 }
@@ -283,6 +286,51 @@ type test struct {
 }
 
 var ntests int
+
+// side file <trace>.sub (NOT part of the validated trace): for every Expr event, on the same
+// line number, the run-time result of every subexpression (pre-order; evaluated on its own
+// with all operands as parameters).  checks/C30.py uses it only to ATTRIBUTE an expression
+// that the trace spec has already rejected to a recorded finding (e.g. "an operand of this
+// & evaluates to 0"), never for a verdict.
+var subw *bufio.Writer
+
+func (t *test) emitSub(text string, allParams string, vals []Value, avs []*aval.V, par result) {
+	if subw == nil {
+		return
+	}
+	var sb strings.Builder
+	fmt.Fprintf(&sb, `{"src":%q,"sub":[`, text)
+	first := true
+	var walk func(e *expr)
+	walk = func(e *expr) {
+		var r result
+		switch {
+		case e.op == "x":
+			_, isInt := SuIntToInt(vals[e.v])
+			r = result{K: "v", V: avs[e.v], I: isInt}
+		case e == t.e:
+			r = par
+		default:
+			body, _ := e.render(func(i int) string { return varNames[i] })
+			r = run("function ("+allParams+") {\nreturn "+body+"\n}", vals)
+		}
+		if !first {
+			sb.WriteByte(',')
+		}
+		first = false
+		v := r.V
+		if v == nil {
+			v = aval.Bool(false)
+		}
+		fmt.Fprintf(&sb, `{"k":%q,"v":%s,"c":%q,"int":%v}`, r.K, v.String(), r.C, r.I)
+		for _, x := range e.a {
+			walk(x)
+		}
+	}
+	walk(t.e)
+	sb.WriteString("]}\n")
+	subw.WriteString(sb.String())
+}
 
 func (t *test) emit(tr *vh.Trace, stats map[string]int) {
 	n := len(t.args)
@@ -510,6 +558,7 @@ func (t *test) emit(tr *vh.Trace, stats map[string]int) {
 		stats["se."+r.K]++
 	}
 	text, _ := t.e.render(litText)
+	t.emitSub(text, allParams, vals, avs, par)
 	tr.Emit(vh.E("Expr", "src", text, "x", t.e.JSON(), "env", avs,
 		"lit", resJSON{lit}, "par", resJSON{par}, "prop", resJSON{prop}, "nf", resJSON{nf}, "mix", mixes,
 		"extra", extra, "se", ses,
@@ -538,6 +587,12 @@ func main() {
 	ks := constants()
 	tr := vh.Create(out)
 	defer tr.Close()
+	if sf, err := os.Create(out + ".sub"); err == nil {
+		subw = bufio.NewWriterSize(sf, 1<<20)
+		defer func() { subw.Flush(); sf.Close() }()
+	} else {
+		vh.Fatal("create %s.sub: %v", out, err)
+	}
 	stats := map[string]int{}
 	emit := func(e *expr, args ...konst) {
 		(&test{e: e, args: args}).emit(tr, stats)
